@@ -53,11 +53,8 @@ fn engine_sh() {
                 let e = mk_exec(&argv);
                 let cl = e.to_cmdline_lossy();
                 let dbg = format!("{:?}", e);
-                if dbg != format!("Exec {{ {} }}", cl) {
-                    writeln!(out, "debug-mismatch {}", hex(dbg.as_bytes())).unwrap();
-                } else {
-                    writeln!(out, "ok {}{}", hex(cl.as_bytes()), alt_form(&format!("{:#?}", e), "Exec", &cl)).unwrap();
-                }
+                // the Debug forms are "Exec { <command line> }"; whatever they print instead is evaluated by the shell too
+                writeln!(out, "ok {}{}{}", hex(cl.as_bytes()), alt_form(&dbg, "Exec", &cl), alt_form(&format!("{:#?}", e), "Exec", &cl)).unwrap();
             }
             // `sha <k> <arg>+`: the command is printed while it is being built (after the first k words), then extended with
             // `args(..)` (and, for odd k, cloned first), then printed again: the text must describe the command as it is NOW
@@ -75,11 +72,8 @@ fn engine_sh() {
                 e = e.args(&rest);
                 let cl = e.to_cmdline_lossy();
                 let dbg = format!("{:?}", e);
-                if dbg != format!("Exec {{ {} }}", cl) {
-                    writeln!(out, "debug-mismatch {}", hex(dbg.as_bytes())).unwrap();
-                } else {
-                    writeln!(out, "ok {}{}", hex(cl.as_bytes()), alt_form(&format!("{:#?}", e), "Exec", &cl)).unwrap();
-                }
+                // the Debug forms are "Exec { <command line> }"; whatever they print instead is evaluated by the shell too
+                writeln!(out, "ok {}{}{}", hex(cl.as_bytes()), alt_form(&dbg, "Exec", &cl), alt_form(&format!("{:#?}", e), "Exec", &cl)).unwrap();
             }
             // `she <name>:<value>[,<name>:<value>]* <arg>+`: the same command with environment overrides (`Exec::env`): they are
             // printed in front of the command as assignments
@@ -93,11 +87,8 @@ fn engine_sh() {
                 }
                 let cl = e.to_cmdline_lossy();
                 let dbg = format!("{:?}", e);
-                if dbg != format!("Exec {{ {} }}", cl) {
-                    writeln!(out, "debug-mismatch {}", hex(dbg.as_bytes())).unwrap();
-                } else {
-                    writeln!(out, "ok {}", hex(cl.as_bytes())).unwrap();
-                }
+                // the Debug forms are "Exec { <command line> }"; whatever they print instead is evaluated by the shell too
+                writeln!(out, "ok {}{}{}", hex(cl.as_bytes()), alt_form(&dbg, "Exec", &cl), alt_form(&format!("{:#?}", e), "Exec", &cl)).unwrap();
             }
             "shp" => {
                 let mut stages: Vec<Vec<Vec<u8>>> = vec![vec![]];
@@ -128,7 +119,8 @@ fn engine_sh() {
                 let dbg = format!("{:?}", p);
                 match dbg.strip_prefix("Pipeline { ").and_then(|r| r.strip_suffix(" }")) {
                     Some(inner) => writeln!(out, "ok {}{}", hex(inner.as_bytes()), alt_form(&format!("{:#?}", p), "Pipeline", inner)).unwrap(),
-                    None => writeln!(out, "debug-mismatch {}", hex(dbg.as_bytes())).unwrap(),
+                    // not the documented shape at all: the whole text is what a reader would paste into a shell
+                    None => writeln!(out, "ok {}", hex(dbg.as_bytes())).unwrap(),
                 }
             }
             _ => writeln!(out, "bad-request").unwrap(),
